@@ -1999,4 +1999,48 @@ theorem runCalls_ok_zero {o : Oracle} {cfg : Cfg} {corpora : List (Corpus α)} (
       rw [hp]
       exact ih _ (c :: stopped) h1 h2 h3 hz
 
+/-! ## 10. the columns of a worker: a new parameter source per (worker, column, task) -/
+
+/-- every column is run on its own, new parameter source -/
+theorem runColumns_fresh {o : Oracle} {cfg : Cfg} {corpora : List (Corpus α)} :
+    ∀ (cols : List (List Alloc.Entry × List Nat)) (outs : List (List (Nat × Bulk α) × List Nat)),
+      runColumns o cfg corpora cols = .ok outs →
+      List.Forall₂ (fun col res => ∃ p0 p', partitionEntries col.1 (PState.init : PState α) = .ok p0 ∧
+        runCalls o cfg corpora col.2 p0 [] = .ok (res.1, res.2, p')) cols outs := by
+  intro cols
+  induction cols with
+  | nil =>
+    intro outs h
+    simp only [runColumns, Except.ok.injEq] at h
+    subst h; exact List.Forall₂.nil
+  | cons col rest ih =>
+    intro outs h
+    obtain ⟨entries, calls⟩ := col
+    unfold runColumns at h
+    cases hp : partitionEntries entries (PState.init : PState α) with
+    | error err => rw [hp] at h; cases h
+    | ok p0 =>
+      rw [hp] at h
+      simp only at h
+      cases hr : runCalls o cfg corpora calls p0 [] with
+      | error err => rw [hr] at h; cases h
+      | ok q =>
+        obtain ⟨out, stopped, p'⟩ := q
+        rw [hr] at h
+        simp only at h
+        cases hrest : runColumns o cfg corpora rest with
+        | error err => rw [hrest] at h; cases h
+        | ok outs' =>
+          rw [hrest] at h
+          simp only [Except.ok.injEq] at h
+          subst h
+          exact List.Forall₂.cons ⟨p0, p', hp, hr⟩ (ih outs' hrest)
+
+/-- the file lines of the shares of the client range `r` (of a task with `c` clients) -/
+def shareLines (c : Nat) (corpora : List (Corpus α)) (r : Nat × Nat) : List α :=
+  ((corpora.flatten.filter (hasShare c r.1 r.2)).map (sliceOf c r.1 r.2)).flatten
+
+/-- the file lines a column handed out -/
+def linesOfRun (res : List (Nat × Bulk α) × List Nat) : List α := (res.1.map (·.2)).flatMap fun b => srcLines b.body
+
 end Bulk
